@@ -14,6 +14,8 @@ import (
 //	    three helper predicates isOutput / checkReadAccess / checkFinalizerAccess, cache use, delegate)
 //	pkg/state/owned/state.go                                     (owner option each owned.State method injects)
 //	pkg/controller/runtime.go                                    (numeric values of the Input* constants)
+//	pkg/controller/runtime/internal/rruntime/rruntime.go,
+//	pkg/controller/runtime/internal/qruntime/qruntime.go         (how the adapters keep the declared input / output slices)
 //
 // Fail closed: every shape that is not recognised is emitted as `.unknown` (`false` for
 // booleans), which the model reads as "no guard / no owner check", so the tie theorem
@@ -99,7 +101,206 @@ func genAccess(repo, out string) {
 	}
 
 	l.line("  | .unknown => .unknown")
+	genAccessDecl(l, repo)
 	l.write(out, ns)
+}
+
+// genAccessDecl: how the adapters keep the declaration slices the controller hands to them
+// (rruntime.go UpdateInputs / NewAdapter, qruntime.go NewAdapter). The access guards above read
+// adapter.Inputs / adapter.Outputs; whether those are private copies or the CALLER's slices decides
+// whether a controller can change its own access rights by rewriting memory it still owns.
+//
+// Fail closed: the three packages that can see the fields are scanned for every write to a field
+// named Inputs / Outputs; anything but the four recognised sites makes the affected entries `.unknown`.
+func genAccessDecl(l *leanFile, repo string) {
+	base := filepath.Join(repo, "pkg/controller/runtime/internal")
+	rr := parse(filepath.Join(base, "rruntime/rruntime.go"))
+	qr := parse(filepath.Join(base, "qruntime/qruntime.go"))
+
+	keep := map[string]string{"rInputs": ".unknown", "rOutputs": ".unknown", "qInputs": ".unknown", "qOutputs": ".unknown"}
+	sorts, storeLast := "none", false
+
+	// every assignment / composite-literal key / element write that targets a field named Inputs or Outputs
+	type write struct{ pkg, fn, field, rhs string }
+
+	var writes []write
+
+	strayMutation := false
+
+	for _, pkg := range []string{"rruntime", "qruntime", "controllerstate"} {
+		files, _ := filepath.Glob(filepath.Join(base, pkg, "*.go")) //nolint:errcheck
+
+		for _, path := range files {
+			if strings.HasSuffix(path, "_test.go") {
+				continue
+			}
+
+			f := parse(path)
+
+			for _, d := range f.Decls {
+				fd, ok := d.(*ast.FuncDecl)
+				if !ok || fd.Body == nil {
+					continue
+				}
+
+				ast.Inspect(fd.Body, func(n ast.Node) bool {
+					switch x := n.(type) {
+					case *ast.AssignStmt:
+						for i, lhs := range x.Lhs {
+							switch t := lhs.(type) {
+							case *ast.SelectorExpr:
+								if t.Sel.Name == "Inputs" || t.Sel.Name == "Outputs" {
+									rhs := "?"
+									if len(x.Lhs) == len(x.Rhs) && x.Tok == token.ASSIGN {
+										rhs = src(x.Rhs[i])
+									}
+
+									writes = append(writes, write{pkg, fd.Name.Name, src(t), rhs})
+								}
+							case *ast.IndexExpr:
+								if s := src(t.X); strings.HasSuffix(s, ".Inputs") || strings.HasSuffix(s, ".Outputs") {
+									strayMutation = true
+								}
+							}
+						}
+					case *ast.KeyValueExpr:
+						if k, ok := x.Key.(*ast.Ident); ok && (k.Name == "Inputs" || k.Name == "Outputs") {
+							writes = append(writes, write{pkg, fd.Name.Name, k.Name + ":", src(x.Value)})
+						}
+					}
+
+					return true
+				})
+			}
+		}
+	}
+
+	classify := func(rhs, cloneOf string) string {
+		switch rhs {
+		case "slices.Clone(" + cloneOf + ")":
+			return ".clone"
+		case cloneOf:
+			return ".alias"
+		}
+
+		return ".unknown"
+	}
+
+	seen := map[string]int{}
+
+	for _, w := range writes {
+		switch {
+		case w.pkg == "rruntime" && w.fn == "UpdateInputs" && w.field == "adapter.Inputs":
+			seen["rInputs"]++
+			keep["rInputs"] = classify(w.rhs, "deps")
+		case w.pkg == "rruntime" && w.fn == "NewAdapter" && w.field == "Outputs:":
+			seen["rOutputs"]++
+			keep["rOutputs"] = classify(w.rhs, "ctrl.Outputs()")
+		case w.pkg == "qruntime" && w.fn == "NewAdapter" && w.field == "Inputs:":
+			seen["qInputs"]++
+			keep["qInputs"] = classify(w.rhs, "settings.Inputs")
+		case w.pkg == "qruntime" && w.fn == "NewAdapter" && w.field == "Outputs:":
+			seen["qOutputs"]++
+			keep["qOutputs"] = classify(w.rhs, "settings.Outputs")
+		default: // a write the model does not know about
+			strayMutation = true
+		}
+	}
+
+	for k := range keep {
+		if seen[k] != 1 || strayMutation {
+			keep[k] = ".unknown"
+		}
+	}
+
+	if fd := method(rr, "Adapter", "UpdateInputs"); fd != nil && fd.Body != nil && accParams(fd) == "deps" {
+		list := fd.Body.List
+
+		// `deps` must still be the caller's slice where it is stored: no re-assignment of the parameter
+		reassigned := false
+
+		ast.Inspect(fd.Body, func(n ast.Node) bool {
+			if as, ok := n.(*ast.AssignStmt); ok {
+				for _, lhs := range as.Lhs {
+					if src(lhs) == "deps" {
+						reassigned = true
+					}
+				}
+			}
+
+			return true
+		})
+
+		if reassigned {
+			keep["rInputs"] = ".unknown"
+		}
+
+		// the store is the last statement before the only `return nil`: every error path leaves adapter.Inputs alone
+		nilReturns := 0
+
+		ast.Inspect(fd.Body, func(n ast.Node) bool {
+			if _, ok := n.(*ast.FuncLit); ok {
+				return false
+			}
+
+			if r, ok := n.(*ast.ReturnStmt); ok && len(r.Results) == 1 && src(r.Results[0]) == "nil" {
+				nilReturns++
+			}
+
+			return true
+		})
+
+		if n := len(list); n >= 2 && nilReturns == 1 && src(list[n-1]) == "return nil" {
+			if as, ok := list[n-2].(*ast.AssignStmt); ok && len(as.Lhs) == 1 && src(as.Lhs[0]) == "adapter.Inputs" {
+				storeLast = true
+			}
+		}
+
+		// in-place sort of the caller's slice
+		sortCalls, first := 0, false
+
+		ast.Inspect(fd.Body, func(n ast.Node) bool {
+			if c, ok := n.(*ast.CallExpr); ok && len(c.Args) > 0 && src(c.Args[0]) == "deps" {
+				if fn := src(c.Fun); strings.HasPrefix(fn, "slices.Sort") || strings.HasPrefix(fn, "sort.") {
+					sortCalls++
+				}
+			}
+
+			return true
+		})
+
+		if len(list) > 0 && src(list[0]) == "slices.SortFunc(deps, controller.Input.Compare)" {
+			first = true
+		}
+
+		switch {
+		case first && sortCalls == 1 && !reassigned:
+			sorts = "some true"
+		case sortCalls == 0 && !reassigned:
+			sorts = "some false"
+		}
+	} else {
+		keep["rInputs"] = ".unknown"
+	}
+
+	// qruntime: `settings` is what the controller returned
+	if fd := method(qr, "", "NewAdapter"); fd == nil || fd.Body == nil || !strings.Contains(src(fd.Body), "settings := ctrl.Settings()") {
+		keep["qInputs"], keep["qOutputs"] = ".unknown", ".unknown"
+	}
+
+	l.line("/-- how each adapter keeps the declaration slice handed to it: `slices.Clone(x)` ⇒ `.clone`, the caller's slice ⇒ `.alias`")
+	l.line("    (rruntime.go UpdateInputs `adapter.Inputs = …`, NewAdapter `Outputs: …`; qruntime.go NewAdapter `Inputs: …`, `Outputs: …`;")
+	l.line("    no other write to a field Inputs / Outputs in rruntime, qruntime, controllerstate) -/")
+	l.line("def declKeep : DeclSite → SliceKeep")
+
+	for _, k := range []string{"rInputs", "rOutputs", "qInputs", "qOutputs"} {
+		l.line("  | .%s => %s", k, keep[k])
+	}
+
+	l.line("/-- rruntime UpdateInputs begins with `slices.SortFunc(deps, controller.Input.Compare)`: the CALLER's slice is sorted in place -/")
+	l.line("def updateSortsCaller : Option Bool := %s", sorts)
+	l.line("/-- rruntime UpdateInputs: the store to adapter.Inputs is the last statement before the only `return nil` (a rejected update leaves it alone) -/")
+	l.line("def updateStoresOnSuccessOnly : Bool := %s", leanBool(storeLast))
 }
 
 type accFacts struct {
